@@ -13,6 +13,7 @@ CONSTANTS
  LyingSizes = TRUE
  InlineData = TRUE
  Conc = 64
+ Probes = TRUE
 INIT GInit
 NEXT GNext
 INVARIANTS Emit
